@@ -28,8 +28,12 @@ package githistory
 //@   props C12
 //@   modifies fresh, ghost lastcached
 //@   ensures result == lastcached()
+//@   at call (*githistory.Rewriter).entryKey:1 assert arg1__ == path && arg2__ == from
+//@   ensures @checked result == r.entries[scat(scat(path, ":"), hexenc(bytesOf(from.Oid)))]
 //@ func (*Rewriter).cacheEntry
 //@   props C12
+//@   at call (*githistory.Rewriter).entryKey:1 assert arg1__ == path && arg2__ == from
+//@   ensures has(r.entries, scat(scat(path, ":"), hexenc(bytesOf(from.Oid)))) && r.entries[scat(scat(path, ":"), hexenc(bytesOf(from.Oid)))] == to
 //@   requires @inv r != nil && r.mu != nil && r.entries != nil && from != nil
 //@   modifies fresh, map r.entries, ghost locked, ghost lockcount
 //@   ensures result == to
